@@ -7,6 +7,7 @@ import (
 	"os"
 	"runtime/debug"
 	"sort"
+	"strings"
 )
 
 // one entry per property: the function that evaluates its rules
@@ -42,6 +43,13 @@ func main() {
 			*tier = "quick"
 		}
 		os.Exit(runCheck(*prop, *tier, *overlay, *goarch))
+	case "sweep":
+		// development aid: several properties (quick tier) on one load of the repository; prints the
+		// output of each check between "== Cnn begin" / "== Cnn rc=N" lines; exit 1 if any fails
+		fs := flag.NewFlagSet("sweep", flag.ExitOnError)
+		plist := fs.String("props", "", "comma-separated property ids (default all)")
+		fs.Parse(os.Args[2:])
+		os.Exit(runSweep(*plist))
 	case "replay":
 		if len(os.Args) < 3 {
 			usage()
@@ -99,6 +107,49 @@ func runCheck(prop, tier, overlayFile, goarch string) (code int) {
 		runThorough(c)
 	}
 	return c.finish(nil)
+}
+
+func runSweep(plist string) int {
+	var ids []string
+	if plist == "" {
+		for k := range props {
+			ids = append(ids, k)
+		}
+	} else {
+		ids = strings.Split(plist, ",")
+	}
+	sort.Strings(ids)
+	base := newCtx(ids[0], "quick")
+	loadErr := base.load()
+	worst := 0
+	for _, id := range ids {
+		run, ok := props[id]
+		if !ok {
+			continue
+		}
+		fmt.Printf("== %s begin\n", id)
+		code := func() (code int) {
+			c := newCtx(id, "quick")
+			c.All, c.byPath, c.Fset, c.fatalErr = base.All, base.byPath, base.Fset, base.fatalErr
+			c.Extra["packages"] = len(base.All)
+			defer func() {
+				if r := recover(); r != nil {
+					fmt.Printf("checker panic: %v\n%s\n", r, debug.Stack())
+					code = c.finish(fmt.Errorf("checker panic: %v", r))
+				}
+			}()
+			if loadErr != nil {
+				return c.finish(loadErr)
+			}
+			run(c)
+			return c.finish(nil)
+		}()
+		fmt.Printf("== %s rc=%d\n", id, code)
+		if code > worst {
+			worst = code
+		}
+	}
+	return worst
 }
 
 // replay re-evaluates the property of a recorded violation on the current tree and prints the
